@@ -1,4 +1,4 @@
-import GlmVerif.Core.Guard
+import GlmVerif.Core.TreeEqv
 /-!
 Specification side, Mathlib-free.  A `Family` is a set of traced units that share
 one textbook definition, written as a function from the unit's shape keys to an
@@ -52,6 +52,9 @@ structure Family where
       (conditions up to polynomial equality of their operands, leaves by `kind`); `post` is not used -/
   treeMode : Bool := false
   specT : List Nat → Nat → Tree := fun _ _ => .leaf (.lit 0 1)
+  /-- (tree mode) compare by walking both trees (`treeEqv` with the arithmetic implication oracle): `specT` may have another
+      shape than the traced tree — it states the decisions the way the documentation does -/
+  treeWalk : Bool := false
   /-- additionally require `Tree.guarded` of every raw output: each `sqrt`/`acos`/`asin`/`log` the code
       evaluates has its argument in range because of the decisions taken before (no hidden NaN) -/
   guard : Bool := false
@@ -85,7 +88,9 @@ def Family.okAt (f : Family) (look : String → List Nat → Unit) (ks : List Na
   (!f.guard || (List.range (f.nRaw ks)).all fun j => ((look f.unit ks).out j).guarded []) &&
   if f.treeMode then
     (look f.unit ks).outs.length == f.nRaw ks &&
-      (List.range (f.nOut ks)).all fun j => treeOK (f.leafOK ks j) ((look f.unit ks).out j) (f.specT ks j)
+      (List.range (f.nOut ks)).all fun j =>
+        if f.treeWalk then treeEqv (implied true) (fun _ a b => f.leafOK ks j a b) [] ((look f.unit ks).out j) (f.specT ks j)
+        else treeOK (f.leafOK ks j) ((look f.unit ks).out j) (f.specT ks j)
   else
   match (look f.unit ks).leafOuts with
   | none => false
